@@ -22,9 +22,15 @@ pub fn gen_impl_trait_arbitrary<T: ToTokens>(
             });
         let error_text =
             format!("Arbitrary generated an invalid value for {type_name}.\n\n{report_issue_msg}");
-        quote!(
-            Self::try_new(inner_value).expect(#error_text)
-        )
+        if has_custom_sanitizer(guard) {
+            // A custom sanitizer may move a value picked within the boundaries out of them.
+            // The generator cannot foresee that, so the input is reported as unsuitable.
+            quote!(Self::try_new(inner_value).map_err(|_| ::arbitrary::Error::IncorrectFormat)?)
+        } else {
+            quote!(
+                Self::try_new(inner_value).expect(#error_text)
+            )
+        }
     } else {
         quote!(Self::new(inner_value))
     };
@@ -43,6 +49,13 @@ pub fn gen_impl_trait_arbitrary<T: ToTokens>(
             (n, Some(n))
         }
     ))
+}
+
+fn has_custom_sanitizer<T>(guard: &IntegerGuard<T>) -> bool {
+    match guard {
+        IntegerGuard::WithoutValidation { sanitizers } => !sanitizers.is_empty(),
+        IntegerGuard::WithValidation { sanitizers, .. } => !sanitizers.is_empty(),
+    }
 }
 
 #[derive(Debug)]
